@@ -299,7 +299,7 @@ pub fn property() -> Property {
         exh_count,
         exh_case,
         bytes_case: None,
-        quick_cases: 200_000,
+        quick_cases: 400_000,
         thorough_cases: 5_000_000,
         max_tape: 64,
     }
